@@ -91,17 +91,17 @@ class C19(Prop):
                   "set as the real code on 9 000 profiles and on every run here) with theorems: every feasible point "
                   "of the generated LP realises the votes restricted to the coloured alternatives (lp_sound), the LP is "
                   "feasible iff such an embedding exists along the axis (lp_feasible_iff), and when no alternative is grey a "
-                  "feasible point realises the full votes (nogrey_partial); conversely, for a 1-Euclidean profile stored from "
-                  "the leftmost to the rightmost voter the pre-check and the colouring succeed and the LP is feasible "
-                  "(C19x.stored_left_to_right_complete_partial), which with no grey alternative makes the model exact on such "
-                  "profiles (…_nogrey_exact_partial); verified rational embedding checker. On other storage orders and with "
-                  "grey alternatives the verdict is compared with an exact z3 oracle whose positive answers are re-checked "
-                  "in Lean (tested, not proved; the property is false there: D17). The pinned code carries known findings D17 (single order; grey alternatives never "
+                  "feasible point realises the full votes (nogrey_partial); conversely, for every 1-Euclidean profile with "
+                  "pairwise distinct orders, stored in any order, the pre-check and the colouring succeed and the LP is "
+                  "feasible (C19x.complete_partial), which with no grey alternative makes the model exact "
+                  "(C19x.nogrey_exact_partial); verified rational embedding checker. With grey alternatives the verdict "
+                  "is compared with an exact z3 oracle whose positive answers are re-checked in Lean (tested, not "
+                  "proved; the property is false there: D17b). The pinned code carries known findings D17 (single order; grey alternatives never "
                   "enter the LP), listed in known_findings.json")
     level_note = ("Lean kernel + standard axioms for the checker; z3 (linear real arithmetic) is trusted for 'no axis is "
                   "feasible'; CBC solves the library's LP; floats are converted exactly to rationals")
     technique = ("Lean 4 proofs about a statement-level model of everything up to the LP (soundness; completeness for profiles "
-                 "stored left to right) + Lean-verified rational embedding checker; exact-oracle (z3) differential testing")
+                 "1-Euclidean profiles) + Lean-verified rational embedding checker; exact-oracle (z3) differential testing")
     theorems = [
         "PrefVerif.Specs.realises_iff",
         "PrefVerif.C19.lp_sound",
@@ -110,8 +110,8 @@ class C19(Prop):
         "PrefVerif.C19.lp_wellFormed",
         "PrefVerif.C19.lp_model_sound",
         "PrefVerif.C19.nogrey_partial",
-        "PrefVerif.C19x.stored_left_to_right_complete_partial",
-        "PrefVerif.C19x.stored_left_to_right_nogrey_exact_partial",
+        "PrefVerif.C19x.complete_partial",
+        "PrefVerif.C19x.nogrey_exact_partial",
     ]
     rule = ("profiles over alternatives 1..m (m <= 5): Euclidean by construction (random generic positions), random "
             "strict profiles, single orders; storage order shuffled; oracle = z3 over all axes; non-trivial = >= 2 "
